@@ -312,7 +312,7 @@ _add6("C04", "no constant is stored into the reply's basic code after the code t
 _add6("C05", "the per-MX policy look-up is started (PrepareConn) in the very function that awaits it (CheckConn) (C13.R13 as R17).", ref="")
 _add6("C07", "the SPF identities reported for alignment never derive from dns.FQDN (R18); dmarc.isAligned converts both domains to A-labels before comparing (R19); check.spf and check.dkim are among the property's packages (E1-E16, E5/E6).", ref="")
 _add6("C10", "queueDelivery.Body keeps no buffer but the one storeNewMessage returned for the first attempt (R3f); the UTF-8 validity rule follows the verdict of an extracted validation helper (R11).", ref="")
-_add6("C12", "the capacity of the delivery semaphore is at least 1 where it is created – the guard may sit in Init (R21).", ref="")
+_add6("C12", "the capacity of the delivery semaphore is at least 1 where it is created – the guard may sit in Init (R21); after every Add on the wait group of the attempts a goroutine is started that calls Done on every way out (R22).", ref="")
 _add6("C13", "the per-MX policy look-up is started in the very function that awaits it (R13).", ref="")
 _add6("C14", "in every hash compute / verify function the password parameter is used whole, never sliced, indexed or copied into a buffer of fixed size (R9); auth_map and auth_map_normalize are registered with the same inherit flag by every endpoint (R10); bcrypt.CompareHashAndPassword is unreachable for a password of more than 72 bytes (R11); internal/table is among the property's packages.", ref="")
 _add6("C15", "internal/table is among the property's packages (a look-up result is never a buffer shared between transactions: E15).", ref="")
